@@ -443,49 +443,113 @@ func inLoopOf(h, b *ssa.BasicBlock) bool {
 func ruleFPAIR(p *Program, r *Reporter) {
 	const id = "F-PAIR"
 	n := 0
-	for _, name := range []string{"filter", "filter2"} {
-		fd, pk, err := p.funcDecl("server", "monitor", name)
-		if err != nil {
-			r.Anchor(id, "server.(*monitor)."+name)
-			continue
+	f1, f2 := p.Fn("server", "monitor", "filter"), p.Fn("server", "monitor", "filter2")
+	pk := p.Pkgs["server"]
+	if f1 == nil || f2 == nil || pk == nil {
+		r.Anchor(id, "server.(*monitor).filter / filter2")
+		return
+	}
+	info := pk.TypesInfo
+	// every conjunction "<kind of change> && <select flag>" in the two filters or their
+	// private helpers, whether it is a case label, an if condition or part of a larger
+	// boolean; the kind may reach a shared predicate helper as a boolean argument
+	type body struct {
+		name string
+		node ast.Node
+	}
+	var nodes []body
+	for fn := range p.PrivateRegion(f1, f2) {
+		if fn.Parent() == nil {
+			if b, _ := bodyOf(fn); b != nil {
+				nodes = append(nodes, body{funcName(fn), b})
+			}
 		}
-		info := pk.TypesInfo
-		// every conjunction "<kind of change> && <select flag>" in the function or its private
-		// helpers, whether it is a case label, an if condition or part of a larger boolean
-		var nodes []ast.Node
-		for fn := range p.PrivateRegion(p.Fn("server", "monitor", name)) {
-			if fn.Parent() == nil {
-				if b, _ := bodyOf(fn); b != nil {
-					nodes = append(nodes, b)
+	}
+	sort.Slice(nodes, func(i, j int) bool { return nodes[i].node.Pos() < nodes[j].node.Pos() })
+	// kinds an expression stands for: directly, or - for a boolean parameter of a helper -
+	// what each call site passes in that position
+	var kindsOf func(e ast.Expr, depth int) []string
+	kindsOf = func(e ast.Expr, depth int) []string {
+		if k := changeKindName(info, e); k != "" {
+			return []string{k}
+		}
+		id, ok := ast.Unparen(e).(*ast.Ident)
+		if !ok || depth > 2 {
+			return nil
+		}
+		obj, _ := info.Uses[id].(*types.Var)
+		if obj == nil {
+			return nil
+		}
+		var out []string
+		for _, f := range pk.Syntax {
+			for _, d := range f.Decls {
+				fd, ok := d.(*ast.FuncDecl)
+				if !ok || fd.Body == nil || fd.Type.Params == nil {
+					continue
+				}
+				idx, pos := -1, 0
+				for _, fl := range fd.Type.Params.List {
+					for _, nm := range fl.Names {
+						if info.Defs[nm] == obj {
+							idx = pos
+						}
+						pos++
+					}
+				}
+				if idx < 0 {
+					continue
+				}
+				fobj := info.Defs[fd.Name]
+				for _, f2 := range pk.Syntax {
+					ast.Inspect(f2, func(x ast.Node) bool {
+						call, ok := x.(*ast.CallExpr)
+						if !ok || idx >= len(call.Args) {
+							return true
+						}
+						var callee types.Object
+						switch fn := ast.Unparen(call.Fun).(type) {
+						case *ast.Ident:
+							callee = info.Uses[fn]
+						case *ast.SelectorExpr:
+							callee = info.Uses[fn.Sel]
+						}
+						if callee != nil && callee == fobj {
+							out = append(out, kindsOf(call.Args[idx], depth+1)...)
+						}
+						return true
+					})
 				}
 			}
 		}
-		_ = fd
-		for _, nd := range nodes {
-			ast.Inspect(nd, func(x ast.Node) bool {
-				be, ok := x.(*ast.BinaryExpr)
-				if !ok || be.Op != token.LAND {
-					return true
+		return out
+	}
+	for _, nd := range nodes {
+		ast.Inspect(nd.node, func(x ast.Node) bool {
+			be, ok := x.(*ast.BinaryExpr)
+			if !ok || be.Op != token.LAND {
+				return true
+			}
+			kinds := kindsOf(be.X, 0)
+			sel := selectFlagName(info, be.Y)
+			if len(kinds) == 0 || sel == "" {
+				kinds2 := kindsOf(be.Y, 0)
+				sel2 := selectFlagName(info, be.X)
+				if len(kinds2) != 0 && sel2 != "" {
+					kinds, sel = kinds2, sel2
 				}
-				kind := changeKindName(info, be.X)
-				sel := selectFlagName(info, be.Y)
-				if kind == "" || sel == "" {
-					kind2 := changeKindName(info, be.Y)
-					sel2 := selectFlagName(info, be.X)
-					if kind2 != "" && sel2 != "" {
-						kind, sel = kind2, sel2
-					}
-				}
-				if kind == "" || sel == "" {
-					return true
-				}
+			}
+			if len(kinds) == 0 || sel == "" {
+				return true
+			}
+			for _, kind := range kinds {
 				n++
 				ok2 := strings.EqualFold(kind, sel)
-				r.Ob(id, "(*server.monitor)."+name, "kind "+kind, be.Pos(), ok2, true,
+				r.Ob(id, nd.name, "kind "+kind, be.Pos(), ok2, true,
 					ifs(ok2, kind+" changes are sent when select."+sel+" is set", "a "+kind+" change is filtered by the select flag for "+sel+": monitors receive kinds of change they did not ask for and miss those they did"))
-				return true
-			})
-		}
+			}
+			return true
+		})
 	}
 	if n < 6 {
 		r.Anchor(id, fmt.Sprintf("filter/filter2: %d kind/select pairs, expected 6", n))
